@@ -88,6 +88,9 @@ class TALFileHandler(FileHandler):
             self.entry.realencoding = self.entry.encoding
             self.entry.encoding = None
             self.entry.type = self.entry.guesstype()
+            # What is sent is the expansion; the size of the template file
+            # says nothing about its length.
+            self.entry.size = None
 
         return self.entry
 
